@@ -723,6 +723,33 @@ pub fn gen_forest(rng: &mut Rng, cat: &mut Catalogue, cfg: &GenCfg) -> Forest {
         f.roots.push(n + 7); // a referent that is not in the DOM
         hostile_used = true;
     }
+    if cfg.hostile && f.nodes.len() >= 2 && rng.below(25) == 0 {
+        // a root list outside the round-trip properties' quantifier ("non-overlapping choices of roots"): one referent
+        // named twice, or an instance together with one of its descendants.  Whatever the serializer makes of it, the
+        // bytes must still be a function of the logical content (C07, rebuild oracle) and model and implementation
+        // must agree; the round-trip oracles do not apply (option `rootdup`).
+        let mut r = tops.clone();
+        rng.shuffle(&mut r);
+        let inner: Vec<u64> = f.nodes.iter().filter(|x| x.parent != 0).map(|x| x.label).collect();
+        if (rng.below(2) == 0 || inner.is_empty()) && !r.is_empty() {
+            let d = r[rng.below(r.len() as u64) as usize];
+            let at = rng.below(r.len() as u64 + 1) as usize;
+            r.insert(at, d);
+            if r.len() == 2 && f.nodes.len() > 1 {
+                // make sure at least two distinct roots are named beside the repetition when the DOM allows it
+                if let Some(x) = inner.first() {
+                    r.insert(rng.below(3) as usize, *x);
+                }
+            }
+        } else if !inner.is_empty() {
+            let d = inner[rng.below(inner.len() as u64) as usize];
+            let at = rng.below(r.len() as u64 + 1) as usize;
+            r.insert(at, d);
+        }
+        f.roots = r;
+        f.opts.push(("rootdup".into(), "1".into()));
+        hostile_used = true;
+    }
     if hostile_used {
         f.opts.push(("hostile".into(), "1".into()));
     }
